@@ -194,13 +194,13 @@ def rand_state(rng):
         minor = rng.choice([0x00, 0x09, 0x10, 0x35, 0x99, 0xff])
         s[(B.K_DEVID, 0, 0)] = ([byte(), byte(), byte(), minor, rng.choice([0x51, 0x02, 0x20, 0x01]), byte()]
                                 + [byte() for _ in range(5)] + ([] if rng.random() < 0.3 else [9, 8, 7, 6]))
-    for _ in range(rng.randrange(4)):
-        s[(B.K_SENS, rng.randrange(4), rng.choice([0, 1, 2, 0x7f, 0x80, 0xfe, 0xff]))] = \
-            [byte(), byte(), byte(), byte()][:rng.choice([2, 3, 4, 4])]
-    for _ in range(rng.randrange(3)):
-        s[(B.K_THRMASK, rng.randrange(4), rng.choice([0, 1, 2, 0x7f, 0x80, 0xfe, 0xff]))] = [byte()]
-    for _ in range(rng.randrange(3)):
-        s[(B.K_THR, rng.randrange(4), rng.choice([0, 1, 2, 0x7f, 0x80, 0xfe, 0xff]))] = [byte() for _ in range(6)]
+    nums = [3, 0x80, 0xff]                       # the sensors the histories address (c07_spec.SENSOR_NUMS)
+    for _ in range(rng.randrange(7)):
+        s[(B.K_SENS, rng.randrange(4), rng.choice(nums))] = [byte(), byte(), byte(), byte()][:rng.choice([2, 3, 3, 4])]
+    for _ in range(rng.randrange(5)):
+        s[(B.K_THRMASK, rng.randrange(4), rng.choice(nums))] = [byte()]
+    for _ in range(rng.randrange(5)):
+        s[(B.K_THR, rng.randrange(4), rng.choice(nums))] = [byte() for _ in range(6)]
     for _ in range(rng.randrange(5)):
         st = rng.choice([0, 1, 2, 3, 3, 5, 7, byte()])
         s[(B.K_LED, rng.choice([0, 1, 255]), rng.choice([0, 1, 255]))] = \
